@@ -3,7 +3,7 @@
 Each row names a function, a target (assignment / struct field / let / return value / constant)
 and the pattern the value must have.  Rows are grouped by property."""
 import hirutil as H
-from hp import (Ctx, ANY, K, L, F, M, C, BIN, UN, CAST, TRY, P, VIA, OR, IF, CONTAINS, find, assignments,
+from hp import (CLAMP, Ctx, ANY, K, L, F, M, C, BIN, UN, CAST, TRY, P, VIA, OR, IF, CONTAINS, find, assignments,
                 struct_field_inits, strip)
 from facts import callee_of, op_local
 from common import loc_of
@@ -111,9 +111,9 @@ for flag in ('letterbox_in_breaks', 'special_style', 'widescreen_storyboard', 'e
              'samples_match_playback_rate'):
     row('C11', GEN, 'flag:' + flag, _all_assign([flag], BIN('Eq', TRY(PARSE_I32), K(1), commutative=True)))
 row('C11', DIFF, 'clamp:slider_multiplier',
-    _all_assign(['difficulty', 'slider_multiplier'], M('clamp', TRY(C('ParseNumber>::parse', ANY())), K(0.4), K(3.6))))
+    _all_assign(['difficulty', 'slider_multiplier'], CLAMP(TRY(C('ParseNumber>::parse', ANY())), K(0.4), K(3.6))))
 row('C11', DIFF, 'clamp:slider_tick_rate',
-    _all_assign(['difficulty', 'slider_tick_rate'], M('clamp', TRY(C('ParseNumber>::parse', ANY())), K(0.5), K(8.0))))
+    _all_assign(['difficulty', 'slider_tick_rate'], CLAMP(TRY(C('ParseNumber>::parse', ANY())), K(0.5), K(8.0))))
 row('C11', DIFF, 'approach-rate-follows-od',
     _contains(IF(UN('Not', F(L('state'), 'has_approach_rate')), ANY()), 'approach rate follows OD only while unset'))
 row('C11', DIFF, 'has_approach_rate-set', _all_assign(['has_approach_rate'], K(True)))
@@ -139,17 +139,17 @@ row('C11', '<section::colors::Color as std::str::FromStr>::from_str', 'alpha=255
 # ------------------------------------------------------------------------------ C12
 TPN = 'section::timing_points::control_points::'
 row('C12', TPN + 'timing::TimingPoint::new', 'clamp:beat_len',
-    _struct_init(TPN + 'timing::TimingPoint', 'beat_len', M('clamp', L('beat_len'), K(6.0), K(60000.0))))
+    _struct_init(TPN + 'timing::TimingPoint', 'beat_len', CLAMP(L('beat_len'), K(6.0), K(60000.0))))
 row('C12', TPN + 'difficulty::DifficultyPoint::new', 'clamp:slider_velocity',
-    _struct_init(TPN + 'difficulty::DifficultyPoint', 'slider_velocity', M('clamp', L('speed_multiplier'), K(0.1), K(10.0))))
+    _struct_init(TPN + 'difficulty::DifficultyPoint', 'slider_velocity', CLAMP(L('speed_multiplier'), K(0.1), K(10.0))))
 row('C12', TPN + 'difficulty::DifficultyPoint::new', 'generate_ticks=!nan',
     _struct_init(TPN + 'difficulty::DifficultyPoint', 'generate_ticks', UN('Not', M('is_nan', L('beat_len')))))
 row('C12', TPN + 'sample::SamplePoint::new', 'clamp:sample_volume',
-    _struct_init(TPN + 'sample::SamplePoint', 'sample_volume', M('clamp', L('sample_volume'), K(0), K(100))))
+    _struct_init(TPN + 'sample::SamplePoint', 'sample_volume', CLAMP(L('sample_volume'), K(0), K(100))))
 row('C12', TPN + 'effect::EffectPoint::new', 'scroll_speed-default',
     _struct_init(TPN + 'effect::EffectPoint', 'scroll_speed', K(1.0)))
 row('C12', TIMING, 'clamp:scroll_speed',
-    _all_assign(['scroll_speed'], M('clamp', L('speed_multiplier'), K(0.01), K(10.0)), base='effect'))
+    _all_assign(['scroll_speed'], CLAMP(L('speed_multiplier'), K(0.01), K(10.0)), base='effect'))
 row('C12', TIMING, 'speed_multiplier',
     _let('speed_multiplier', IF(BIN('Lt', L('beat_len'), K(0.0)), BIN('Div', K(100.0), UN('Neg', L('beat_len'))), K(1.0))))
 row('C12', TIMING, 'timing_change-default',
@@ -197,12 +197,62 @@ row('C14', HITOBJ, 'hold-end>=start',
 row('C14', HITOBJ, 'hold-duration',
     _struct_init('section::hit_objects::hold::HitObjectHold', 'duration', BIN('Sub', L('end_time'), L('start_time'))))
 
+CONVP = 'section::hit_objects::decode::HitObjectsState::convert_points'
+row('C14', CONVP, 'split:repeated-point',
+    _contains(IF(BIN('Ne', F(ANY(), 'pos'), F(ANY(), 'pos')), ANY()), 'segments split only at a repeated point'))
+row('C14', CONVP, 'split:not-in-catmull',
+    _contains(IF(BIN('And', BIN('Eq', L('path_type'), P('PathType::CATMULL')), BIN('Gt', L('end_idx'), K(1))), ANY()),
+              'Catmull paths are not split (except at index 1)'))
+row('C14', CONVP, 'split:not-at-segment-end',
+    _contains(IF(BIN('Eq', L('end_idx'), BIN('Sub', BIN('Sub', M('len', ANY()), L('end_point_len')), K(1))), ANY()),
+              'no split at the end of a segment'))
+row('C14', CONVP, 'perfect->linear',
+    _contains(IF(C('is_linear', ANY(), ANY(), ANY()), ANY()), 'degenerate three-point perfect curves become linear'))
+row('C14', CONVP, 'perfect->bezier',
+    _contains(IF(BIN('Eq', L('path_type'), P('PathType::PERFECT_CURVE')), ANY()), 'other perfect curves become Bezier'))
+row('C14', CONVP, 'first-point-origin',
+    _contains(IF(L('first'), CONTAINS(M('push', ANY(), C('default')))), 'the first segment starts at the origin'))
+row('C14', CONVP, 'type-on-first-vertex',
+    _contains(M('first_mut', F(L('self'), 'vertices')), 'the path type is stored on the first vertex'))
+PT = 'section::hit_objects::slider::path_type::PathType::new_from_str'
+for letter, const in (('B', None), ('L', 'PathType::LINEAR'), ('P', 'PathType::PERFECT_CURVE')):
+    pass
+
+
+def _letters(ctx, hfn):
+    from kt import _pat_lits
+    got = {}
+
+    def visit(n, anc):
+        if n.get('k') == 'match' and not n.get('src', '').startswith('TryDesugar'):
+            for a in n['arms']:
+                lits = []
+                _pat_lits(a['pat'], lits)
+                names = []
+
+                def v2(x, anc2):
+                    if x.get('k') == 'path' and x.get('def', '').startswith('section::hit_objects::slider::path_type::PathType::'):
+                        names.append(x['name'])
+                H.walk(a['body'], v2)
+                for l in lits:
+                    if isinstance(l, str) and len(l) == 1:
+                        got[l] = names[-1] if names else None
+                if a['pat'].get('k') == 'wild':
+                    got['_'] = names[-1] if names else None
+    H.walk(hfn['body'], visit)
+    exp = {'B': 'BEZIER', 'L': 'LINEAR', 'P': 'PERFECT_CURVE', '_': 'CATMULL'}
+    ok = got == exp
+    return ok, '' if ok else 'path type letters map to %s, expected %s' % (got, exp), None
+
+
+row('C14', PT, 'type-letters', _letters)
+
 # ------------------------------------------------------------------------------ C15
 row('C15', None, 'const:BASE_SCORING_DIST', _const('section::hit_objects::BASE_SCORING_DIST', 100.0))
 row('C15', 'section::hit_objects::decode::get_precision_adjusted_beat_len', 'clamp:osu/catch',
-    _contains(BIN('Div', M('clamp', ANY(), K(10.0), K(10000.0)), K(100.0)), 'osu!/catch clamp [10, 10000] / 100'))
+    _contains(BIN('Div', CLAMP(ANY(), K(10.0), K(10000.0)), K(100.0)), 'osu!/catch clamp [10, 10000] / 100'))
 row('C15', 'section::hit_objects::decode::get_precision_adjusted_beat_len', 'clamp:taiko/mania',
-    _contains(BIN('Div', M('clamp', ANY(), K(10.0), K(1000.0)), K(100.0)), 'taiko/mania clamp [10, 1000] / 100'))
+    _contains(BIN('Div', CLAMP(ANY(), K(10.0), K(1000.0)), K(100.0)), 'taiko/mania clamp [10, 1000] / 100'))
 row('C15', 'section::hit_objects::decode::get_precision_adjusted_beat_len', 'sv-as-beat-len',
     _let('slider_velocity_as_beat_len', BIN('Div', K(-100.0), L('slider_velocity'))))
 row('C15', HO_FROM, 'velocity',
@@ -229,7 +279,7 @@ row('C15', 'section::hit_objects::slider::HitObjectSlider::span_count', 'span_co
 
 # ------------------------------------------------------------------------------ C19
 row('C19', CURVE + 'progress_to_dist', 'clamp*dist',
-    _ret(BIN('Mul', M('clamp', L('progress'), K(0.0), K(1.0)), C('dist', L('lengths')), commutative=True)))
+    _ret(BIN('Mul', CLAMP(L('progress'), K(0.0), K(1.0)), C('dist', L('lengths')), commutative=True)))
 row('C19', CURVE + 'dist', 'last-or-zero',
     _ret(M('unwrap_or', M('copied', M('last', L('lengths'))), K(0.0))))
 row('C19', CURVE + 'position_at', 'composition:dist', _let('d', C('progress_to_dist', L('lengths'), L('progress'))))
@@ -242,7 +292,7 @@ row('C20', None, 'const:MAX_LEN', _const(EVENT + "SliderEventsIter::<'ticks_buf>
 row('C20', None, 'const:TAIL_LENIENCY', _const(EVENT + "SliderEventsIter::<'ticks_buf>::TAIL_LENIENCY", -36.0))
 SEI = EVENT + "SliderEventsIter::<'ticks_buf>::new"
 row('C20', SEI, 'len', _let('len', M('min', K(100000.0), L('total_dist'))))
-row('C20', SEI, 'tick_dist-clamp', _all_assign([], M('clamp', L('tick_dist'), K(0.0), L('len')), base='tick_dist'))
+row('C20', SEI, 'tick_dist-clamp', _all_assign([], CLAMP(L('tick_dist'), K(0.0), L('len')), base='tick_dist'))
 row('C20', SEI, 'min_dist_from_end',
     _struct_init(EVENT + 'SliderEventsIter', 'min_dist_from_end', BIN('Mul', L('velocity'), K(10.0), commutative=True)))
 row('C20', SEI, 'initial-state', _struct_init(EVENT + 'SliderEventsIter', 'state', P('SliderEventsIterState::Head')))
